@@ -51,6 +51,8 @@ def r5(ctx):
     from . import c05, c09
     c09.r5(ctx, AT4_API); c09.r5(ctx, AT5_API)
     c05.r1_ability(ctx)
+    from . import c04
+    c04.quick_timer_duration(ctx, "C04.R8")
     new = ctx.obligations[before:]
     del ctx.obligations[before:]
     n_ok = 0
